@@ -78,6 +78,8 @@ def _case(draw, ctx):
             min_inputs=1, max_inputs=5, min_gates=1, max_gates=12, max_fanin=3,
             max_insts=0 if inp else draw(st.sampled_from([0, 1, 2])),
             unconnected_pins=True, outputs="random", io_outputs=True,
+            const_types=("0", "1", "x") if draw(st.integers(0, 2)) == 0 else ("0", "1"),
+            pools=(S.BENIGN, ["\\u1.dbg", "\\core.n1", "\\a.b.c", "\\m.x", "\\top.u2.q"]) if (inp and draw(st.integers(0, 3)) == 0) else (S.BENIGN,),
         )
     )
     return {"spec": spec, "inputs": inp, "raw_attrs": draw(st.integers(0, 3)) == 0}
